@@ -31,6 +31,7 @@ M = [
     ("C04-forkid-check-dropped", "C04", "pycoin/coins/bcash/SolutionChecker.py", "if hash_type & SIGHASH_FORKID != SIGHASH_FORKID:", "if False:"),
     ("C04-hash-sequence-ignores-none", "C04", "pycoin/coins/bitcoin/SegwitChecker.py", "            or ((hash_type & 0x1F) == SIGHASH_NONE)\n", ""),
     ("C04-sighash-blanks-real-sequences", "C04", "pycoin/coins/bitcoin/SolutionChecker.py", "        return self.tx.TxIn(\n            tx_in.previous_hash, tx_in.previous_index, b\"\", tx_in.sequence\n        )", "        tx_in.script = b\"\" if False else tx_in.script\n        self.tx.lock_time = self.tx.lock_time\n        tx_in.sequence = tx_in.sequence if idx == unsigned_txs_out_idx else tx_in.sequence\n        return tx_in if False else self.tx.TxIn(\n            tx_in.previous_hash, tx_in.previous_index, b\"\", tx_in.sequence & 0xFFFFFFFE\n        )"),
+    ("C04-grs-hash-prevouts-double-sha", "C04", "pycoin/coins/groestlcoin/SolutionChecker.py", "        return sha256(f.getvalue())", "        return sha256(sha256(f.getvalue()))"),
     ("C05-low-s-removed", "C05", "pycoin/solve/some_solvers.py", "            if s + s > order:\n                s = order - s", "            if False:\n                s = order - s"),
     ("C05-hash-type-byte-always-all", "C05", "pycoin/solve/some_solvers.py", "binary_signature = der.sigencode_der(r, s) + bytes([signature_type])", "binary_signature = der.sigencode_der(r, s) + bytes([signature_type & 0x7F])"),
     ("C05-stops-one-signature-early", "C05", "pycoin/solve/some_solvers.py", "if len(existing_signatures) >= len(signature_variables):", "if len(existing_signatures) >= len(signature_variables) - 1 and len(signature_variables) > 1:"),
